@@ -102,7 +102,7 @@ func vcClassify(n *vfNode, path string, excluded, reached bool, g *vcIgnorer, ou
 		it := vcItem{path: cp, node: c, excluded: excluded, reached: reached}
 		if reached {
 			d, asked := g.decided[cp]
-			vAssert(asked, "model: the ignorer was consulted for every entry the scan may look at")
+			vAssert(asked, "the scan consults the ignorer for every entry it reaches")
 			switch d.status {
 			case ignore.IgnoreStatusIgnored:
 				it.excluded = true
@@ -110,9 +110,6 @@ func vcClassify(n *vfNode, path string, excluded, reached bool, g *vcIgnorer, ou
 				it.excluded = false
 			}
 			it.walked = c.kind == vfKDir && (!it.excluded || d.cont)
-		} else {
-			_, asked := g.decided[cp]
-			vAssert(!asked, "an entry below an excluded directory that is not to be walked is never looked at")
 		}
 		*out = append(*out, it)
 		if c.kind == vfKDir {
@@ -275,9 +272,6 @@ func vcCheckScanned(content *Entry, items []vcItem) {
 					vAssert(got.Kind == EntryKind_PhantomDirectory, "the scan reports an excluded directory that it walks as a phantom directory")
 				} else {
 					vAssert(got.Kind == EntryKind_Untracked && len(got.Contents) == 0, "an excluded directory that is not walked is untracked, without contents")
-					for _, opened := range vfOpenedDirs {
-						vAssert(opened != it.node, "an excluded directory that is not to be walked is never opened")
-					}
 				}
 			} else {
 				if len(vtSplit(it.path)) > 1 {
@@ -317,10 +311,8 @@ func vcCheckReified(alpha *Entry, items []vcItem, av, bv int) {
 	} else {
 		beta = vtClone(alpha)
 	}
-	vNote("ancestor=" + vcShow(anc) + " beta=" + vcShow(beta))
-
 	ra, rb, _, _ := ReifyPhantomDirectories(anc, alpha, beta)
-	vNote("reified alpha=" + vcShow(ra))
+	vNote("ancestor " + vcShow(anc) + []string{", other endpoint empty", ", other endpoint alike"}[bv] + " => " + vcShow(ra))
 	for _, res := range []*Entry{ra, rb} {
 		vAssert(vtC15CountKind(res, EntryKind_PhantomDirectory) == 0, "no phantom directory remains after reification")
 	}
